@@ -28,9 +28,9 @@ Theorem C05_disk_invariant : forall e dn, shard_range e ->
 Proof. exact disk_invariant. Qed.
 Print Assumptions C05_disk_invariant.
 
-(* the hypotheses are satisfiable (two shards; a full sync, then a partial sync that removes
-   the only backend of shard 1) *)
+(* the hypotheses are satisfiable (two shards; a full sync - w_s1 is the state it leads to -,
+   then a partial sync that removes the only backend of shard 1) *)
 Theorem C05_hypotheses_satisfiable :
-  shard_range w_env /\ wf_hist w_env 7 inst_empty [(w_full2, []); (w_part, [FShard 1])].
+  shard_range w_env /\ wf_hist w_env 7 inst_empty [(w_full2, [])] /\ wf_batch w_env 7 (i_cfg w_s1) w_part.
 Proof. exact (conj w_range wf_hist_example). Qed.
 Print Assumptions C05_hypotheses_satisfiable.
